@@ -154,6 +154,9 @@ type node struct {
 	hashSlots []uint16
 	legacy    bool
 	memTable  int
+	// outgoing: hash slots with an outgoing migration (runtime configuration the
+	// cluster layer installs on every replica; re-installed after each open)
+	outgoing map[uint16]multiraft.SlotID
 
 	mem  *vfs.MemFS
 	gate *gateFS
@@ -196,6 +199,17 @@ func (n *node) open() bool {
 		_ = db.Close()
 		n.r.Infra("%s: state machine is not a BatchStateMachine", n.name)
 		return false
+	}
+	if len(n.outgoing) > 0 {
+		cfg, ok := sm.(interface {
+			UpdateOutgoingDeltaTargets(map[uint16]multiraft.SlotID)
+		})
+		if !ok {
+			_ = db.Close()
+			n.r.Infra("%s: state machine has no UpdateOutgoingDeltaTargets", n.name)
+			return false
+		}
+		cfg.UpdateOutgoingDeltaTargets(n.outgoing)
 	}
 	n.db, n.sm, n.bsm = db, sm, bsm
 	return true
